@@ -412,7 +412,7 @@ pub fn cfgs(tier: &str) -> Vec<(BarrierCfg, Bounds)> {
             Bounds::new(d).wall(wall),
         ));
     };
-    let d = if q { 2 } else { 3 };
+    let d = if q { 2 } else { 4 };
     add("1 machine: shutdown Status(3) at 10 ms, timeout 50 ms", 50, Traffic::None, vec![slow(1, After::ShutdownAt(10, Some(3)))], d);
     add("2 requesters: Status(1)@10ms (3 yields) vs Exited@10ms, timeout 1 s", 1000, Traffic::None,
         vec![slow(3, After::ShutdownAt(10, Some(1))), slow(0, After::ShutdownAt(10, None))], d);
@@ -423,14 +423,14 @@ pub fn cfgs(tier: &str) -> Vec<(BarrierCfg, Bounds)> {
     add("one application never reaches the barrier, timeout 50 ms", 50, Traffic::None,
         vec![slow(0, After::ShutdownAt(0, Some(5))), SlowCfg { yields: 1, reaches_barrier: false, after: After::Return }], d);
     add("SendMessage -> Capture (route has MAC), slow harness apps on both machines", 1000,
-        Traffic::SendCapture { arp: false }, vec![slow(3, After::Return), slow(1, After::Return)], if q { 1 } else { 2 });
+        Traffic::SendCapture { arp: false }, vec![slow(3, After::Return), slow(1, After::Return)], if q { 1 } else { 3 });
     add("SendMessage -> Capture with ARP, slow harness apps", 1000,
-        Traffic::SendCapture { arp: true }, vec![slow(3, After::Return), slow(0, After::Return)], if q { 1 } else { 2 });
+        Traffic::SendCapture { arp: true }, vec![slow(3, After::Return), slow(0, After::Return)], if q { 1 } else { 3 });
     add("SendMessage -> Forward -> Capture (routes have MACs), slow harness apps", 1000,
-        Traffic::SendForwardCapture { arp: false }, vec![slow(3, After::Return), slow(1, After::Return), slow(0, After::Return)], 1);
+        Traffic::SendForwardCapture { arp: false }, vec![slow(3, After::Return), slow(1, After::Return), slow(0, After::Return)], if q { 1 } else { 2 });
     add("SendMessage -> Forward -> Capture with ARP, slow harness apps", 1000,
-        Traffic::SendForwardCapture { arp: true }, vec![slow(3, After::Return), slow(1, After::Return), slow(0, After::Return)], 1);
-    add("PingPong, slow harness app, timeout 1 s", 1000, Traffic::PingPong, vec![slow(3, After::Return)], 1);
+        Traffic::SendForwardCapture { arp: true }, vec![slow(3, After::Return), slow(1, After::Return), slow(0, After::Return)], if q { 1 } else { 2 });
+    add("PingPong, slow harness app, timeout 1 s", 1000, Traffic::PingPong, vec![slow(3, After::Return)], if q { 1 } else { 2 });
     // zero machines
     v.push((
         BarrierCfg {
@@ -452,7 +452,7 @@ pub fn cfgs(tier: &str) -> Vec<(BarrierCfg, Bounds)> {
             zero_machines: false,
             burst: 20,
         },
-        Bounds::new(if q { 1 } else { 2 }).wall(wall),
+        Bounds::new(if q { 1 } else { 3 }).wall(wall),
     ));
     v
 }
